@@ -593,6 +593,9 @@ tx_outs:\n{tx_outs}
                 return False
         elif script_pubkey.is_p2sh():
             commands = tx_in.script_sig.commands
+            # BIP16: the ScriptSig of a p2sh spend must be push-only (OP_16 == 0x60)
+            if any(isinstance(command, int) and command > 0x60 for command in commands):
+                return False
             if len(commands) > 1 and isinstance(commands[-1], bytes):
                 redeem_script = RedeemScript.convert(commands[-1])
                 if redeem_script.is_witness_script():
